@@ -180,8 +180,25 @@ func C15_Targets() {
 // C15_Preloaded: a target that already holds values: zero values from the
 // block must overwrite them; an empty slice binding still validates its
 // target.
+type TKey struct {
+	Port1   int
+	MaxConn int
+}
+
 func C15_Preloaded() {
-	switch verif.Choice("case", 6) {
+	switch verif.Choice("case", 8) {
+	case 6: // a key differing from the field name in one arbitrary byte
+		b := verif.Byte("b")
+		var t TKey
+		err := bcl.Bind(&t, bcl.StructBinding{Value: bcl.Block{Type: "tkey", Fields: map[string]any{"port" + string([]byte{b}): 5}}})
+		verif.Assert((err == nil) == (b == '1'), "key port? binds field Port1 only as port1")
+		verif.Assert(err != nil || t.Port1 == 5, "the value is stored")
+	case 7: // one arbitrary byte inside a key: only an underscore is ignored
+		b := verif.Byte("b")
+		var t TKey
+		err := bcl.Bind(&t, bcl.StructBinding{Value: bcl.Block{Type: "tkey", Fields: map[string]any{"max" + string([]byte{b}) + "conn": 6}}})
+		verif.Assert((err == nil) == (b == '_'), "key max?conn binds field MaxConn only as max_conn")
+		verif.Assert(err != nil || t.MaxConn == 6, "the value is stored")
 	case 3: // pointers to binding values are bindings too (the method set of
 		// *StructBinding includes binding()): an error or nil, never a panic
 		var t TOdd
